@@ -120,6 +120,8 @@ func (o Op) String() string {
 		return fmt.Sprintf("%s(%d,%d)", o.K, o.W, o.H)
 	case "lock":
 		return fmt.Sprintf("lock(%d,%d,%d,%d,%v)", o.X, o.Y, o.W, o.H, o.Lock)
+	case "restore":
+		return fmt.Sprintf("restore(%d,%d,via%d)", o.X, o.Y, o.CS)
 	}
 	return o.K
 }
@@ -350,6 +352,9 @@ func Gen(r *rand.Rand, o GenOpts) (int, int, []Op) {
 			}
 			o2.Sp = GenSpec(r, o.Urls)
 			ops = append(ops, o2)
+		case k < 62:
+			// re-store whatever the cell holds now (identical content)
+			ops = append(ops, Op{K: "restore", X: r.IntN(cw), Y: r.IntN(ch), CS: r.IntN(3)})
 		case k < 70:
 			ops = append(ops, Op{K: "show"})
 		case k < 75:
